@@ -49,12 +49,26 @@ fn sched_strategy() -> BoxedStrategy<Sched> {
     prop_oneof![4 => Just(Sched::Random), 4 => (1u8..=5).prop_map(Sched::Pct), 1 => Just(Sched::RoundRobin)].boxed()
 }
 
-fn base_cfg(max_sets: usize) -> BoxedStrategy<ParCfg> {
-    (1u32..=4, 1usize..=4, 0usize..=max_sets, vec(0u8..4, 0..4), 0u8..3, 0u8..2, Just(0u8))
-        .prop_map(|(n_threads, queue_len, n_sets, work_yields, consumer_yields, reader_yields, extra_next)| ParCfg {
+fn base_cfg(kind: Kind, max_sets: usize) -> BoxedStrategy<ParCfg> {
+    // queue lengths: mostly 1..4; also 5..12 and - where the number of variants per configuration allows it - queues
+    // of 60..70 and 125..140 data sets (channel capacities, counters)
+    let queue = match kind {
+        Kind::C07 | Kind::C16 => prop_oneof![20 => 1usize..=4, 6 => 5usize..=12, 1 => 60usize..=70, 1 => 125usize..=140].boxed(),
+        Kind::C08 | Kind::C15 => prop_oneof![10 => 1usize..=4, 3 => 5usize..=12].boxed(),
+    };
+    let scale_sets = matches!(kind, Kind::C07 | Kind::C16);
+    (1u32..=4, queue, 0usize..=max_sets, any::<u16>(), vec(0u8..4, 0..4), 0u8..3, 0u8..2, Just(0u8))
+        .prop_map(move |(n_threads, queue_len, n_sets, raw, work_yields, consumer_yields, reader_yields, extra_next)| ParCfg {
             n_threads,
             queue_len,
-            n_sets,
+            // long queues need inputs with more sets than data sets to be interesting
+            n_sets: if queue_len > 12 {
+                queue_len - 3 + raw as usize % (queue_len + 12)
+            } else if queue_len > 4 && scale_sets {
+                raw as usize % (2 * queue_len + 6).max(max_sets + 1)
+            } else {
+                n_sets
+            },
             work_yields,
             consumer_yields,
             reader_yields,
@@ -180,6 +194,11 @@ fn classify(kind: Kind, cfg: &ParCfg, o: &Obs, ctx: &mut Ctx) -> bool {
     if cfg.n_sets == 0 {
         ctx.class("empty input");
     }
+    if cfg.queue_len > 12 {
+        ctx.class("queue length 60..140");
+    } else if cfg.queue_len > 4 {
+        ctx.class("queue length 5..12");
+    }
     match kind {
         Kind::C07 => cfg.n_sets >= 2 && (out_of_order || cfg.n_threads >= 2 || cfg.n_sets > cfg.queue_len + 1),
         Kind::C08 => stopped_early || !faultless(cfg) || cfg.consumer == Consumer::StopAfter(0),
@@ -192,7 +211,7 @@ impl Prop for Mock {
     type Case = MockCase;
     fn strategy(&self, _tier: Tier) -> BoxedStrategy<MockCase> {
         let s = self.schedules;
-        boxed((base_cfg(self.max_sets), sched_strategy(), any::<u64>()).prop_map(move |(cfg, sched, seed)| MockCase { cfg, sched, seed, schedules: s }))
+        boxed((base_cfg(self.kind, self.max_sets), sched_strategy(), any::<u64>()).prop_map(move |(cfg, sched, seed)| MockCase { cfg, sched, seed, schedules: s }))
     }
 
     fn check(&self, c: &MockCase, ctx: &mut Ctx) -> CheckResult {
@@ -265,17 +284,21 @@ impl Prop for Real {
         let s = self.schedules;
         let cfg = (
             (any::<bool>(), if kind == Kind::C16 { 0u8..80 } else { 0u8..14 }, vec(prop_oneof![5 => 0u8..30, 1 => 30u8..255], 1..5), 3usize..48, 0u8..6, prop::option::weighted(0.5, 1u8..64)),
-            (1u32..=3, 1usize..=3, 0u8..4, 0u8..3, prop_oneof![2 => Just(0u8), 1 => 1u8..4, 1 => 4u8..12]),
+            (1u32..=3, prop_oneof![6 => 1usize..=3, 2 => 4usize..=10], 0u8..4, 0u8..3, prop_oneof![2 => Just(0u8), 1 => 1u8..4, 1 => 4u8..12]),
+            (prop_oneof![12 => Just(0u16), 1 => 1000u16..3000], prop_oneof![3 => Just(0u8), 1 => 1u8..7]),
             (prop::option::weighted(0.5, 0u8..14), prop::option::weighted(0.4, 0u16..12), any::<bool>(), prop::option::weighted(0.5, 0u16..10), prop::option::weighted(0.5, 0u8..4)),
         )
-            .prop_map(move |((fastq, n_records, sizes, cap, chunk, policy_t), (n_threads, queue_len, api, work_yields, consumer_yields), (bad, stop, ri, di, si))| {
+            .prop_map(move |((fastq, n_records, sizes, cap, chunk, policy_t), (n_threads, queue_len, api, work_yields, consumer_yields), (many, trailing_blank), (bad, stop, ri, di, si))| {
                 let mut c = RealCfg {
                     fastq,
                     n_records,
                     sizes,
                     bad_at: None,
-                    cap,
-                    chunk,
+                    // thousands of tiny records: a buffer that holds > 1024 of them per batch
+                    cap: if many > 0 { 8192 + cap * 1000 } else { cap },
+                    chunk: if many > 0 { 0 } else { chunk },
+                    many,
+                    trailing_blank,
                     n_threads,
                     queue_len,
                     stop_after: None,
@@ -376,6 +399,15 @@ impl Prop for Real {
             if o.seen.windows(2).any(|w| w[0].0 > w[1].0) {
                 ctx.class("records arrived out of file order");
             }
+            if o.sets.iter().any(|s| s.len() > 1024) {
+                ctx.class("a record set with more than 1024 records");
+            }
+            if c.cfg.trailing_blank > 0 {
+                ctx.class("blank lines after the last record");
+            }
+            if c.cfg.queue_len > 3 {
+                ctx.class("queue length 4..10");
+            }
             if matches!(o.result, Some(Err(_))) {
                 ctx.class("call returned an error");
             }
@@ -460,7 +492,7 @@ const ASSUME: [&str; 3] = [
 ];
 
 fn rule(kind: Kind) -> String {
-    let common = "cases = (base configuration: worker threads 1..4, queue length 1..4, number of sets, per-set worker yields, consumer/reader yields; scheduler in {random, PCT depth 1..5, round robin}; scheduler seed); every execution runs the real read_parallel_init / parallel_fasta(_init) / parallel_fastq(_init) under shuttle with an instrumented mock reader (tagged data sets, content-dependent outputs) or the real readers over generated documents whose batches have different sizes. evaluations = executions (configuration variant x schedule). ";
+    let common = "cases = (base configuration: worker threads 1..4, queue length 1..4 (less often 5..12, and for C07 / C16 rarely 60..70 or 125..140 with correspondingly many sets), number of sets, per-set worker yields, consumer/reader yields; scheduler in {random, PCT depth 1..5, round robin}; scheduler seed); every execution runs the real read_parallel_init / parallel_fasta(_init) / parallel_fastq(_init) under shuttle with an instrumented mock reader (tagged data sets, content-dependent outputs) or the real readers over generated documents whose batches have different sizes (1 in 13: additionally 1000..3000 tiny records read with a buffer of 8..56 KiB, i.e. batches of more than 1024 records; 1 in 4: 1..6 blank lines after the last record). evaluations = executions (configuration variant x schedule). ";
     let own = match kind {
         Kind::C07 => "Oracle: with a draining consumer every set / record reaches the consumer exactly once with the output computed for it, records inside a set in file order, sets in file order with one worker, worker saw each set once, end marker once. Non-trivial = >= 2 sets and (out-of-order completion, >= 2 workers, or recycling).",
         Kind::C08 => "Per base configuration the consumer behaviours (drain; stop after k results for every k in 0..=sets+1), a reader error at every set index and every init closure failing at each of its calls are enumerated. Oracle: shuttle reports no deadlock and no step-bound overrun, the call returns the expected result, and no callback runs after it returned. Non-trivial = consumer stopped with sets in flight, or a fault, or a consumer that never asks.",
